@@ -204,14 +204,65 @@ theorem end_cases (g : Gen) :
       left
       exact ⟨f, rest, rfl, hd, by simp [Gen.end_, hd, Ctx.pop, hb, pure, Except.pure]⟩
 
+theorem transformPrefix_ctx {T : Tables} {tag : Str} {bnd : Option Bind} {st st5 : TState}
+    (h : transformPrefix T tag bnd st = .ok st5) :
+    st5.ctx = st.ctx ∨ ∃ n : Int, n > 0 ∧ st.ctx.getItem sTabindex = .ok (.int n) ∧
+      st.ctx.setItem sTabindex (.int (n + 1)) = .ok st5.ctx := by
+  unfold transformPrefix at h
+  simp only [bind, Except.bind] at h
+  cases h1 : transformName T tag bnd st with
+  | error e => rw [h1] at h; simp at h
+  | ok s1 =>
+    rw [h1] at h; simp only at h
+    cases h2 : transformValue T tag bnd s1 with
+    | error e => rw [h2] at h; simp at h
+    | ok s2 =>
+      rw [h2] at h; simp only at h
+      cases h3 : transformDomid T tag bnd s2 with
+      | error e => rw [h3] at h; simp at h
+      | ok s3 =>
+        rw [h3] at h; simp only at h
+        cases h4 : transformFor T tag bnd s3 with
+        | error e => rw [h4] at h; simp at h
+        | ok s4 =>
+          rw [h4] at h; simp only at h
+          have e04 : s4.ctx = st.ctx := by
+            rw [transformFor_ctx h4, transformDomid_ctx h3, transformValue_ctx h2, transformName_ctx h1]
+          rcases transformTabindex_ctx h with e5 | ⟨n, hn, hg, hs, _⟩
+          · left; rw [e5, e04]
+          · right; rw [e04] at hg hs; exact ⟨n, hn, hg, hs⟩
+
+theorem afterFailedTag_ctx (T : Tables) (g : Gen) (tag : Str) (bnd : Option Bind) (kwargs : List (Str × Val)) :
+    (g.afterFailedTag T tag bnd kwargs).xml = g.xml ∧
+    ((g.afterFailedTag T tag bnd kwargs).ctx = g.ctx ∨ ∃ n : Int, n > 0 ∧ g.ctx.getItem sTabindex = .ok (.int n) ∧
+      g.ctx.setItem sTabindex (.int (n + 1)) = .ok (g.afterFailedTag T tag bnd kwargs).ctx) := by
+  unfold Gen.afterFailedTag
+  cases hp : transformPrefix T tag bnd ⟨Flatland.C11.transformKeys (Dict.erase kwargs "contents".toList),
+      Dict.get? kwargs "contents".toList, g.ctx⟩ with
+  | error e => exact ⟨rfl, Or.inl rfl⟩
+  | ok st5 => exact ⟨rfl, transformPrefix_ctx hp⟩
+
 theorem step_tag_cases (T : Tables) (R : RenderCfg) (g : Gen) (name : Str) (bnd : Option Bind)
     (kwargs : List (Str × Val)) :
     (∃ s g', g.callTag T R.attrChain R.voids R.order name bnd kwargs = .ok (s, g') ∧
         step T R g (.tag name bnd kwargs) = (g', ⟨none, some s⟩)) ∨
-    (∃ e, step T R g (.tag name bnd kwargs) = (g, ⟨some e, none⟩)) := by
+    (∃ e, step T R g (.tag name bnd kwargs) = (g.afterFailedTag T name bnd kwargs, ⟨some e, none⟩)) := by
   cases hc : g.callTag T R.attrChain R.voids R.order name bnd kwargs with
   | error e => right; exact ⟨e, by simp [step, hc]⟩
   | ok r => obtain ⟨s, g'⟩ := r; left; exact ⟨s, g', rfl, by simp [step, hc]⟩
+
+/-- whatever a tag call does (return markup or raise), the only thing it can change is the
+    tabindex counter of the top frame -/
+theorem step_tag_effect (T : Tables) (R : RenderCfg) (g : Gen) (name : Str) (bnd : Option Bind)
+    (kwargs : List (Str × Val)) :
+    ∃ g' o, step T R g (.tag name bnd kwargs) = (g', o) ∧ g'.xml = g.xml ∧
+      (g'.ctx = g.ctx ∨ ∃ n : Int, n > 0 ∧ g.ctx.getItem sTabindex = .ok (.int n) ∧
+        g.ctx.setItem sTabindex (.int (n + 1)) = .ok g'.ctx) := by
+  rcases step_tag_cases T R g name bnd kwargs with ⟨s, g', hc, hst⟩ | ⟨e, hst⟩
+  · obtain ⟨hx, hctx⟩ := callTag_ctx hc
+    exact ⟨g', _, hst, hx, hctx⟩
+  · obtain ⟨hx, hctx⟩ := afterFailedTag_ctx T g name bnd kwargs
+    exact ⟨_, _, hst, hx, hctx⟩
 
 /-! ### frames vs levels -/
 
@@ -283,23 +334,20 @@ theorem matches_step (T : Tables) (R : RenderCfg) (g : Gen) (h : Hist) (op : Op)
     · simp only [step, histStep, he]
       simpa using hm
   | tag name bnd kwargs =>
-    rcases step_tag_cases T R g name bnd kwargs with ⟨s, g', hc, hst⟩ | ⟨e, hst⟩
-    · obtain ⟨_, hctx⟩ := callTag_ctx hc
-      simp only [histStep, hst]
-      rcases hctx with heq | ⟨n, _, _, hs⟩
-      · simp only [heq, if_true]; exact hm
-      · obtain ⟨e, _⟩ := setItem_ok hs
-        by_cases hsame : g'.ctx = g.ctx
-        · simp only [hsame, if_true]; exact hm
-        · simp only [hsame, if_false]
-          have hget : g'.ctx.getItem sTabindex = .ok (.int (n + 1)) := by
-            rw [e]; simp [Ctx.getItem, Dict.get?_set_self, pure, Except.pure]
-          rw [hget]
-          simp only [frames]
-          rw [e]
-          exact matches_addLog [(sTabindex, CVal.int (n + 1))] hm
-    · simp only [histStep, hst]
-      simpa using hm
+    obtain ⟨g', o, hst, _, hctx⟩ := step_tag_effect T R g name bnd kwargs
+    simp only [histStep, hst]
+    rcases hctx with heq | ⟨n, _, _, hs⟩
+    · simp only [heq, if_true]; exact hm
+    · obtain ⟨e, _⟩ := setItem_ok hs
+      by_cases hsame : g'.ctx = g.ctx
+      · simp only [hsame, if_true]; exact hm
+      · simp only [hsame, if_false]
+        have hget : g'.ctx.getItem sTabindex = .ok (.int (n + 1)) := by
+          rw [e]; simp [Ctx.getItem, Dict.get?_set_self, pure, Except.pure]
+        rw [hget]
+        simp only [frames]
+        rw [e]
+        exact matches_addLog [(sTabindex, CVal.int (n + 1))] hm
 
 theorem matches_run (T : Tables) (R : RenderCfg) (ops : List Op) (g : Gen) (h : Hist)
     (hm : Matches (frames g.ctx) h) :
